@@ -162,6 +162,7 @@ def run(ctx, run):
     _recursion(ctx, run)
     _references(ctx, run)
     _page_sizes(ctx, run)
+    _no_self_deadlock(ctx, run)
     for k, (flds, iv, why) in ARG_ASSUME.items():
         if k in ctx.arg_assume_used:
             run.assumptions.append("argument `%s` of %s() at its call in %s() is in %s: %s" % (k[2], k[1], k[0], list(iv), why))
@@ -895,3 +896,27 @@ def _case_values(f, node, var):
         if ok and vals:
             best = vals          # rpo: later (inner) switches overwrite outer ones
     return best
+
+
+# --------------------------------------------------------------------------------------
+# (d') hangs: no client callback runs with a decoder mutex held, every lock is released on every
+# path (a handler may call vbi_fetch_cc_page(), the next vbi_decode() takes the same mutexes) -
+# the lockset analysis of C20, of which only the deadlock-relevant instances are taken over
+
+def _no_self_deadlock(ctx, run):
+    from .. import report
+    from . import C20
+    tmp = report.Run("C20", run.tier, "", "")
+    C20.run(ctx, tmp)
+    n = 0
+    for inst in tmp.instances:
+        k = inst["key"]
+        if not (k.startswith("RF-LOCK:callback") or "pair" in k or "held" in k or "unlock" in k or "order" in k):
+            continue
+        n += 1
+        if inst["verdict"] == "holds":
+            run.holds("RF-LOCK", k, inst["detail"], inst["loc"], nontrivial=inst.get("nontrivial", True))
+        else:
+            run.violation("RF-LOCK", k, inst["detail"] + " - a handler that calls back into the decoder (vbi_fetch_cc_page), or the "
+                          "next vbi_decode(), blocks forever", inst["loc"], witness=inst.get("witness"))
+    run.floor("lock pairing / callback-without-lock instances", n, 5)
